@@ -50,7 +50,10 @@ def cases(draw):
         d = "" if i == 0 else draw(st.sampled_from(DIRS))
         rules = draw(st.lists(st.sampled_from(POOL), min_size=1, max_size=3, unique=True))
         files.append({"dir": d, "rules": {r: draw(st.one_of(st.none(), st.sampled_from(POOL))) for r in rules},
-                      "uses": draw(st.sampled_from(POOL)), "qualified": draw(st.integers(0, 5)) == 0})
+                      "uses": draw(st.sampled_from(POOL)), "qualified": draw(st.integers(0, 5)) == 0,
+                      # an abstract rule whose whole body is one (optionally qualified) rule reference; a qualified
+                      # one may name any visible file that defines the rule, also one that is shadowed for plain names
+                      "alias": draw(st.sampled_from([None, None, "plain", "qualified"])), "alias_pick": draw(st.integers(0, 5))})
     edges = []
     for i in range(n):
         k = draw(st.integers(0, min(3, n - 1)))
@@ -80,6 +83,17 @@ def resolve(case, i, name):
         if name in case["files"][j]["rules"]:
             return j
     return None
+
+
+def alias_target(case, i):
+    """file whose rule the alias rule Al<i> of file i stands for, or None when file i has no alias rule"""
+    f = case["files"][i]
+    if not f.get("alias"):
+        return None
+    if f["alias"] == "plain":
+        return resolve(case, i, f["uses"])
+    cands = [j for j in [i] + imports(case, i) if f["uses"] in case["files"][j]["rules"]]
+    return cands[f["alias_pick"] % len(cands)] if cands else None
 
 
 def rel_import(case, i, j):
@@ -122,7 +136,12 @@ def evaluate(case):
         ref = f["uses"]
         if tgt is not None and f["qualified"]:
             ref = ns(case, tgt) + "." + f["uses"]
-        t += f"U{i}: 'u{i}' x={ref};\n"
+        al = alias_target(case, i)
+        if al is not None:
+            aref = f["uses"] if f["alias"] == "plain" else ns(case, al) + "." + f["uses"]
+            t += f"U{i}: 'u{i}' x={ref} ('al' y=Al{i})?;\nAl{i}: {aref};\n"
+        else:
+            t += f"U{i}: 'u{i}' x={ref};\n"
         if tgt is None and (i == 0 or i in reach(0)) and expect_unresolved is None:
             expect_unresolved = (i, f["uses"])
         for r, inner in f["rules"].items():
@@ -163,7 +182,7 @@ def evaluate(case):
                 if j in stack:
                     f = case["files"][i]
                     used = [f["uses"]] + [x for x in f["rules"].values() if x]
-                    if any(resolve(case, i, u) == j for u in used):
+                    if any(resolve(case, i, u) == j for u in used) or alias_target(case, i) == j:
                         back_ref = True
                 elif j not in done:
                     dfs(j)
@@ -237,6 +256,27 @@ def evaluate(case):
                 o = getattr(o, "n", None)
                 if o is None:
                     break
+            # the alias rule of the same file: the object is of the rule it stands for and an instance of the alias
+            al = alias_target(case, j)
+            if al is not None:
+                from textx import textx_isinstance
+
+                name = f["uses"]
+                text2 = " ".join(toks[:3] if len(toks) >= 3 else toks) + f" al {kw(al, name)} 9"
+                out.cls("alias_rule:" + f["alias"] + ("_shadowed" if al != resolve(case, j, name) else ""))
+                try:
+                    m2 = mm.model_from_str(text2)
+                except TextXError as e:
+                    out.add("alias_rule/rejected", ctx + f": input {text2!r}: {e}")
+                    continue
+                o2 = m2.items[0].y
+                want = ns(case, al) + "." + name
+                if getattr(type(o2), "_tx_fqn", None) != want:
+                    out.add("alias_rule/wrong_rule_chosen", ctx + f": input {text2!r}: object of "
+                            f"{getattr(type(o2), '_tx_fqn', None)}, expected {want}")
+                elif not textx_isinstance(o2, mm[ns(case, j) + f".Al{j}"]):
+                    out.add("alias_rule/not_instance_of_alias", ctx + f": input {text2!r}: the {want} object is not an "
+                            f"instance of {ns(case, j)}.Al{j}")
         return out
     finally:
         shutil.rmtree(tmp, ignore_errors=True)
